@@ -155,6 +155,16 @@ func checkMain(args []string) int {
 		tier = 1
 	}
 	hdir := filepath.Join(*vdir, "harness")
+	// the harness sources are snapshotted for the duration of the run: workers (also restarted ones) and the
+	// native replay all see the files as they were when the check started
+	if snap, err := os.MkdirTemp("", "verif-harness-"); err == nil {
+		if exec.Command("cp", "-r", hdir+"/.", snap).Run() == nil {
+			hdir = snap
+			defer os.RemoveAll(snap)
+		} else {
+			os.RemoveAll(snap)
+		}
+	}
 	hs, err := discover(hdir)
 	if err != nil {
 		fmt.Println("INCONCLUSIVE cannot parse harnesses:", err)
